@@ -1,4 +1,6 @@
 import CoapVerif.Lemmas.MsgLayer
+import CoapVerif.Lemmas.MsgLayerX
+import CoapVerif.Lemmas.MsgHold
 /-
 C08 — NSTART: a session never has more than NSTART Confirmable messages in flight; messages beyond the limit
 (and anything submitted before the session is established) are held and later transmitted exactly once each, in
@@ -10,7 +12,7 @@ submission order; on failure each held Confirmable is reported by exactly one NA
 Property theorems only; helper lemmas live in CoapVerif/Lemmas/MsgLayer.lean.
 -/
 namespace Coap.C08
-open Coap Coap.SQ Coap.Msg
+open Coap Coap.SQ Coap.Msg Coap.MsgX
 
 /-- The inductive invariant `WF` (every queued node is a CON; for every session `con_active` = number of its
 nodes in the send queue ≤ NSTART ≤ 255) is kept by every event, whatever the peer sends. -/
@@ -140,5 +142,151 @@ example :
 example : DqStep 0 (init 0 [{ est := false }])
     ((init 0 [{ est := false }]).setS 0 { est := false, delayq := [⟨0, 7, 0, 0, 0, 7, true⟩] }) :=
   DqStep.push ⟨0, 7, 0, 0, 0, 7, true⟩ (by decide) (by decide) (by decide)
+
+/-! ## The extended model (Model/MsgLayerX.lean): explicit tokens and `coap_cancel_all_messages` as the pointer
+walk it is, ICMP errors, keepalive pings.  `runX (initX t0 ss) evs` is a run of `stepX` over ANY list of base and
+extended events. -/
+
+/-- The invariant is kept by every event of the extended model: a separate response cancelling several
+Confirmables that share its token, an ICMP error, a keepalive ping being sent, acknowledged, reset ("pong") or
+given up, in any interleaving with everything else. -/
+theorem wf_step_x (lx : LX) (e : EvX) (h : WF lx.l) : WF (stepX lx e).l := wfX_step lx e h
+
+/-- (1x) `con_active` = number of the session's Confirmables (the library's pings included) waiting for an
+acknowledgement, after every sequence of base and extended events. -/
+theorem con_active_eq_inflight_x (ss : List Sess) (t0 : Nat) (evs : List EvX) (s : Nat)
+    (hss : ∀ se ∈ ss, se.conActive = 0 ∧ se.delayq = [] ∧ se.nstart ≤ 255) (hs : s < ss.length) :
+    ((runX (initX t0 ss) evs).l.getS s).conActive = inflight (runX (initX t0 ss) evs).l s := by
+  have h := wfX_run evs _ (show WF (initX t0 ss).l from wf_init t0 ss hss)
+  have hl := (runX_star evs (initX t0 ss) s hs).len
+  exact (h.2 s (by rw [hl]; exact hs)).1
+
+/-- (2x) never more than NSTART Confirmables in flight, after every sequence of base and extended events: an ICMP
+error does not make the library forget the Confirmables it keeps retransmitting, a ping counts. -/
+theorem inflight_le_nstart_x (ss : List Sess) (t0 : Nat) (evs : List EvX) (s : Nat)
+    (hss : ∀ se ∈ ss, se.conActive = 0 ∧ se.delayq = [] ∧ se.nstart ≤ 255) (hs : s < ss.length) :
+    inflight (runX (initX t0 ss) evs).l s ≤ ((runX (initX t0 ss) evs).l.getS s).nstart := by
+  have h := wfX_run evs _ (show WF (initX t0 ss).l from wf_init t0 ss hss)
+  have hl := (runX_star evs (initX t0 ss) s hs).len
+  exact (h.2 s (by rw [hl]; exact hs)).2.1
+
+/-- (3x) a NON with an explicit token on an open, established session goes out at once. -/
+theorem non_not_delayed_by_nstart_x (l : L) (s mid r tok : Nat)
+    (ho : (l.getS s).sockOpen = true) (he : (l.getS s).est = true) :
+    (submitT l s false mid r tok).out = Out.sub (some mid) :: Out.tx l.now s mid 0 false :: l.out ∧
+    ((submitT l s false mid r tok).getS s).delayq = (l.getS s).delayq ∧
+    (submitT l s false mid r tok).q = l.q := by
+  simp [submitT, sendCore, gate, ho, he]
+
+/-- (4x) every event of the extended model moves the delay queue of every session only by `DqStep`s (appended at
+the end without transmission / head leaves exactly when transmitted / cleared by a failure with one NACK per held
+CON): held messages go out exactly once each, in submission order, none is lost — also when slots are freed by a
+cancel-by-token walk or by the RST of a ping, and an ICMP error does not touch the delay queue. -/
+theorem held_fifo_exactly_once_x (lx : LX) (e : EvX) (s : Nat) (hs : s < lx.l.sess.length) :
+    Star (DqStep s) lx.l (stepX lx e).l := stepX_star lx e s hs
+
+theorem held_fifo_exactly_once_x_run (lx : LX) (evs : List EvX) (s : Nat) (hs : s < lx.l.sess.length) :
+    Star (DqStep s) lx.l (runX lx evs).l := runX_star evs lx s hs
+
+/-- An ICMP error (`coap_session_disconnected_lkd(COAP_NACK_ICMP_ISSUE)`) reports one NACK and changes nothing
+else: the Confirmables in flight stay in the send queue AND stay counted, the held ones stay held. -/
+theorem icmp_changes_only_output (l : L) (s : Nat) :
+    (icmp l s).q = l.q ∧ (icmp l s).sess = l.sess ∧ (icmp l s).now = l.now ∧
+    ∃ mid known, (icmp l s).out = Out.nack l.now s .icmp mid known :: l.out := by
+  unfold icmp
+  split
+  · rename_i n _; exact ⟨rfl, rfl, rfl, n.mid, true, rfl⟩
+  · exact ⟨rfl, rfl, rfl, 0, false, rfl⟩
+
+/-- With keepalive off the extended model does to the message layer what the base model does (all base events
+but the arrival of a NON response, where it follows the pointer walk of `coap_cancel_all_messages`): the
+theorems above specialise to the base theorems' runs. -/
+theorem x_agrees_with_base (lx : LX) (e : Ev) (h : lx.pingTimeout = 0) (hn : ∀ s mid tok, e ≠ .rxNon s mid tok) :
+    (stepX lx (.base e)).l = step lx.l e ∧ (stepX lx (.base e)).pingTimeout = 0 := stepX_base lx e h hn
+
+/-- a submission whose token is its message id is the base model's submission -/
+theorem submitT_mid_is_submit (l : L) (s : Nat) (con : Bool) (mid r : Nat) :
+    submitT l s con mid r mid = submit l s con mid r := submitT_eq_submit l s con mid r
+
+/-! ## "held … and later transmitted as earlier exchanges finish" -/
+
+/-- (6) No idle hold.  For every event sequence: if an ESTABLISHED session holds a message at all, the message at
+the head of its delay queue is a Confirmable and EXACTLY NSTART Confirmables of the session are in flight.  So a
+held message waits only for a slot: whatever ends an exchange (ACK, RST, reply with an invalid code, give-up,
+cancel by token) re-opens the gate in the same event, and a NON never waits on an established session. -/
+theorem no_idle_hold (ss : List Sess) (t0 : Nat) (evs : List Ev) (s : Nat)
+    (hss : ∀ se ∈ ss, se.conActive = 0 ∧ se.delayq = [] ∧ se.nstart ≤ 255) (hs : s < ss.length)
+    (he : ((run (init t0 ss) evs).getS s).est = true) :
+    ∀ n ∈ ((run (init t0 ss) evs).getS s).delayq.head?,
+      n.con = true ∧ inflight (run (init t0 ss) evs) s = ((run (init t0 ss) evs).getS s).nstart := by
+  have hw := wf_run evs _ (wf_init t0 ss hss)
+  have hn := nih_run evs _ (wf_init t0 ss hss) (nih_init t0 ss hss)
+  have hlt : s < (run (init t0 ss) evs).sess.length := by rw [run_len]; exact hs
+  intro n hm
+  have h1 := hn s hlt he n hm
+  have h2 := hw.2 s hlt
+  exact ⟨h1.1, by omega⟩
+
+/-- (6x) the same over the extended model: also the RST of a keepalive ping ("pong"), a cancel-by-token walk
+that removes several Confirmables, and an ICMP error leave no message waiting next to a free slot. -/
+theorem no_idle_hold_x (ss : List Sess) (t0 : Nat) (evs : List EvX) (s : Nat)
+    (hss : ∀ se ∈ ss, se.conActive = 0 ∧ se.delayq = [] ∧ se.nstart ≤ 255) (hs : s < ss.length)
+    (he : ((runX (initX t0 ss) evs).l.getS s).est = true) :
+    ∀ n ∈ ((runX (initX t0 ss) evs).l.getS s).delayq.head?,
+      n.con = true ∧ inflight (runX (initX t0 ss) evs).l s = ((runX (initX t0 ss) evs).l.getS s).nstart := by
+  have hw := wfX_run evs _ (show WF (initX t0 ss).l from wf_init t0 ss hss)
+  have hn := nihX_run evs _ (show WF (initX t0 ss).l from wf_init t0 ss hss) (nih_init t0 ss hss)
+  have hlt : s < (runX (initX t0 ss) evs).l.sess.length := by
+    rw [(runX_star evs (initX t0 ss) s hs).len]; exact hs
+  intro n hm
+  have h1 := hn s hlt he n hm
+  have h2 := hw.2 s hlt
+  exact ⟨h1.1, by omega⟩
+
+/-- (6) is not vacuous: NSTART = 1, two CONs submitted — the session is established, the second is held, one is in
+flight -/
+example :
+    let l := run (init 1000 [{ nstart := 1 }]) [.submit 0 true 1 0, .submit 0 true 2 0]
+    (l.getS 0).est = true ∧ ((l.getS 0).delayq.head?.map (·.mid)) = some 2 ∧ inflight l 0 = 1 := by decide
+
+/-! ### non-vacuity of the extended statements -/
+
+/-- NSTART = 2: two Confirmables sharing token 7 are in flight, two more are held; ONE separate response with
+token 7 cancels both and frees BOTH slots: both held messages are transmitted, in order, `con_active` = 2 = the
+number in flight, nothing is held. -/
+example :
+    let lx := runX (initX 1000 [{ nstart := 2 }])
+      [.submitT 0 true 101 0 7, .submitT 0 true 102 0 7, .base (.submit 0 true 103 0), .base (.submit 0 true 104 0),
+       .base (.rxNon 0 900 7)]
+    (lx.l.getS 0).conActive = 2 ∧ inflight lx.l 0 = 2 ∧ (lx.l.getS 0).delayq = [] ∧
+    (lx.l.out.filter (fun o => o matches Out.tx ..)).reverse.map (fun o => match o with | .tx _ _ m _ _ => m | _ => 0)
+      = [101, 102, 103, 104] := by decide
+
+/-- NSTART = 1: a Confirmable is in flight when an ICMP error arrives; the next Confirmable is HELD (one in
+flight, `con_active` = 1), not transmitted. -/
+example :
+    let lx := runX (initX 1000 [{ nstart := 1 }]) [.base (.submit 0 true 101 0), .icmp 0, .base (.submit 0 true 102 0)]
+    (lx.l.getS 0).conActive = 1 ∧ inflight lx.l 0 = 1 ∧ ((lx.l.getS 0).delayq.map (·.mid)) = [102] := by decide
+
+/-- NSTART = 1, keepalive 1 s: after one silent second the library's ping (message id 1) takes the slot, a
+Confirmable submitted now is held; the peer's RST of the ping ("pong") frees the slot: the held Confirmable is
+transmitted at that moment, exactly one is in flight, and the RST was not reported as a NACK. -/
+example :
+    let lx := runX (initX 1000 [{ nstart := 1 }])
+      [.keepalive 1, .base (.setNow 2000), .base .prepare, .base (.submit 0 true 101 0)]
+    let lx' := stepX lx (.base (.rxRst 0 1))
+    (lx.l.getS 0).conActive = 1 ∧ inflight lx.l 0 = 1 ∧ ((lx.l.getS 0).delayq.map (·.mid)) = [101] ∧
+    (lx'.l.getS 0).conActive = 1 ∧ (lx'.l.q.nodes.map (·.mid)) = [101] ∧ (lx'.l.getS 0).delayq = [] ∧
+    lx'.l.out.head? = some (Out.tx 2000 0 101 0 true) ∧
+    (lx'.l.out.filter (fun o => o matches Out.nack ..)) = [] := by decide
+
+/-- the pointer walk differs from "remove every message with that token": a held message with the SAME token that
+is released during the walk and lands in FRONT of the walk's position stays in flight (NSTART = 2; message 1 has
+another token and the earliest deadline, message 2 has token 7, message 3 — token 7, the shortest timeout — is held:
+the walk has passed message 1 when message 2 is unlinked and message 3 is inserted in front of message 1) -/
+example :
+    let lx := runX (initX 1000 [{ nstart := 2 }])
+      [.base (.submit 0 true 1 128), .submitT 0 true 2 255 7, .submitT 0 true 3 0 7, .base (.rxNon 0 900 7)]
+    (lx.l.q.nodes.map (·.mid)) = [3, 1] ∧ (lx.l.getS 0).conActive = 2 ∧ inflight lx.l 0 = 2 := by decide
 
 end Coap.C08
